@@ -50,6 +50,13 @@ def const_bytes(k):
         return None
     for key in ("ptr", "slice", "indirect"):
         if key in v and isinstance(v[key], dict) and "bytes" in v[key]:
+            a = v[key]
+            hops = 0
+            while a.get("ptrs") and len(a["ptrs"]) == 1 and a["ptrs"][0][0] == 0 and a.get("len") in (8, 16) and isinstance(a["ptrs"][0][1], dict) and "bytes" in a["ptrs"][0][1] and hops < 3:
+                a = a["ptrs"][0][1]      # a reference to a reference to the data
+                hops += 1
+            if hops:
+                return bytes.fromhex(a["bytes"])
             b = bytes.fromhex(v[key]["bytes"])
             off = v.get("off", 0)
             if key == "slice":
